@@ -14,7 +14,8 @@ CLAUSES = {
     (MPS, "Mps.evolve"): {("passed-to-modifying-callee", "mpo", "method"): "R3 the Hamiltonian is handed to the scheme implementations listed below; only _evolve_tdvp_ps2 with OFS touches it (exemption)"},
     (MPS, "Mps._evolve_prop_and_compress"): {("inplace-call", "self", "[].scale"): "R3 term 0 of the Taylor list is self scaled in place by (-i dt)^0 c_0 = 1 (dtype becomes complex, represented vector unchanged; bounded: walker evolve frame, C09)"},
     (MPS, "Mps._evolve_prop_and_compress_tdrk4"): {},
-    (MPS, "Mps._evolve_prop_and_compress_tdrk"): {},
+    (MPS, "Mps._evolve_prop_and_compress_tdrk"): {("returns-alias", "self", ""): "R3 `new_mps = self` only seeds the adaptive loop: its single exit (break) follows `new_mps = trial_mps`, a fresh "
+                                                   "compressed_sum; the analysis joins branches flow-insensitively (bounded: C09 adaptive clauses compare the input before and after)"},
     (MPS, "Mps._evolve_tdvp_mu_vmf"): {},
     (MPS, "Mps._evolve_tdvp_mu_cmf"): {},
     (MPS, "Mps._evolve_tdvp_ps"): {},
@@ -28,15 +29,16 @@ CLAUSES = {
     (MP, "MatrixProduct.add"): {}, (MP, "MatrixProduct.conj"): {}, (MP, "MatrixProduct.dot"): {}, (MP, "MatrixProduct.copy"): {}, (MP, "MatrixProduct.metacopy"): {},
     (MP, "MatrixProduct.distance"): {}, (MP, "MatrixProduct.angle"): {}, (MPS, "Mps.todense"): {}, (MPDM, "MpDm.todense"): {}, (MP, "MatrixProduct.dump"): {},
     (MP, "MatrixProduct.variational_compress"): {("*", "guess", "*"): "R3 documented in the docstring: ``guess`` is overwritten (and the property text exempts the optimiser's initial guess)"},
-    (MP, "MatrixProduct.to_complex"): {("write", "self", "[]"): INPL, ("write", "self", "dtype"): INPL},
+    (MP, "MatrixProduct.to_complex"): {("write", "self", "[]"): INPL, ("write", "self", "dtype"): INPL, ("returns-alias", "self", ""): INPL},
     (MP, "MatrixProduct.scale"): {("inplace-call", "self", "to_complex"): "R3 only when inplace=True (new_mp = self if inplace else self.copy()): documented in-place mode",
-                                  ("write", "self", "[]"): "R3 only when inplace=True, see above; inplace=False is audited bounded (walker: scale, mutate_result)"},
+                                  ("write", "self", "[]"): "R3 only when inplace=True, see above; inplace=False is audited bounded (walker: scale, mutate_result)",
+                                  ("returns-alias", "self", ""): INPL},
     (MPO, "Mpo.apply"): {}, (MPO, "Mpo.contract"): {}, (MPO, "Mpo.conj_trans"): {}, (MPO, "Mpo.__matmul__"): {}, (MPO, "Mpo.todense"): {},
     (MPDM, "MpDm.apply"): {}, (MPDM, "MpDm.evolve_exact"): {}, (MPDM, "MpDm.from_mps"): {}, (MPDM, "MpDm.conj_trans"): {},
     (LIB, "compressed_sum"): {}, (LIB, "_sum"): {("preserving-call", "mps_list", "canonicalise"): "R1"},
-    (TREE, "TTNS.evolve"): {}, (TREE, "TTNS.add"): {}, (TREE, "TTNS.scale"): {("write", "self", "root.tensor"): INPL, ("inplace-call", "self", "to_complex"): INPL},
+    (TREE, "TTNS.evolve"): {}, (TREE, "TTNS.add"): {}, (TREE, "TTNS.scale"): {("write", "self", "root.tensor"): INPL, ("inplace-call", "self", "to_complex"): INPL, ("returns-alias", "self", ""): INPL},
     (TREE, "TTNS.copy"): {}, (TREE, "TTNS.metacopy"): {},
-    (TREE, "TTNS.to_complex"): {("write", "self", "[].tensor"): INPL, ("write", "self", "[].qn"): INPL},
+    (TREE, "TTNS.to_complex"): {("write", "self", "[].tensor"): INPL, ("write", "self", "[].qn"): INPL, ("returns-alias", "self", ""): INPL},
     (TREE, "TTNS.expectation"): {("write", "self", "basis.root.parent"): "R3 restores the temporary re-parenting under the dummy root (C11: roots_restored)",
                                  ("write", "self", "root.parent"): "R3 same", ("write", "ttno", "root.parent"): "R3 same",
                                  ("write", "self", "basis.root.[].parent"): "R3 same", ("write", "self", "[].parent"): "R3 same"},
@@ -51,9 +53,13 @@ INPLACE_BY_CONTRACT = {(TEVO, "evolve_tdvp_ps"), (TEVO, "evolve_tdvp_ps2")}
 
 
 def prove(run):
+    prove_clauses(run, CLAUSES)
+
+
+def prove_clauses(run, clauses, what="the represented vector of an input may change"):
     idx = index()
     n_eff = 0
-    for (rel, qual), clause in CLAUSES.items():
+    for (rel, qual), clause in clauses.items():
         t0 = time.time()
         try:
             fn = idx.find(rel, qual)
@@ -74,14 +80,14 @@ def prove(run):
                 bad.append(eff)
                 run.oblig(oid, qual, "A(effects)", "violated", "ast-effects", 0.0)
                 run.violation(f"frame:{qual}:modifies", qual, f"statement `{txt}` ({rel}, line {fn.lineno}+{ln - fn.lineno}) {kind} on parameter '{param}' "
-                              f"(path {detail}) is outside the function's modifies clause: the represented vector of an input may change",
+                              f"(path {detail}) is outside the function's modifies clause: {what}",
                               fields={"function": qual, "kind": kind, "parameter": param, "path": detail},
                               replay={"function": qual, "file": rel, "statement": txt, "effect": {"kind": kind, "parameter": param, "path": detail},
                                       "modifies_clause": {"|".join(k): v for k, v in clause.items()},
                                       "verifier_output": "effect analysis: no rule R1 (gauge-preserving callee) / R2 (non-denotation field) applies and the sidecar clause has no entry"},
                               no_input=True, engine="A(effects)")
         run.oblig(f"frame:{qual}:modifies", qual, "A(effects)", "violated" if bad else "discharged", "ast-effects", time.time() - t0)
-    if n_eff == 0:
+    if n_eff == 0 and clauses is CLAUSES:
         run.crash("C13_effects: zero effects found in any function (vacuous analysis)")
     run.trusted += ["effect analysis (vk/pyvc/effects.py): in-place behaviour is identified by method name tables (MUTATING_METHODS, PRESERVING_INPLACE, MODIFYING_CALLEES); "
                     "aliases through containers other than list/tuple literals, closures and callee bodies are not tracked; R1 relies on the gauge contracts of C03/C04; "
